@@ -65,7 +65,11 @@ Entries ==
   \cup {[name |-> nm, kinds |-> <<"node_list">>] : nm \in {"ts.simplify", "ts.subset", "ts.ibd_within", "ts.variants_samples", "ts.genotype_matrix_samples",
        "ts.haplotypes_samples", "ts.diversity_set", "ts.segregating_sites_set", "ts.afs_set", "ts.mean_descendants", "ts.gnn_focal", "ts.tree_tracked",
        "ts.divergence_matrix_ids", "ts.pair_coalescence_counts", "tables.link_ancestors_samples", "tables.link_ancestors_ancestors",
-       "ts.count_topologies", "ts.trait_like_general_stat", "ts.ibd_between_one", "ts.extend_haplotypes_noop", "ts.Y1_set"}}
+       "ts.count_topologies", "ts.trait_like_general_stat", "ts.ibd_between_one", "ts.extend_haplotypes_noop", "ts.Y1_set",
+       "ts.relatedness_vector_nodes"}}
+  \* identifiers that only reach the C library under a particular option combination: one entry of a full-length node mapping handed to
+  \* union with and without the equality check of the shared part
+  \cup {[name |-> nm, kinds |-> <<"node">>] : nm \in {"tables.union_mapping_checked", "tables.union_mapping_unchecked", "ts.union_mapping_unchecked"}}
   \cup {[name |-> "ts.delete_sites", kinds |-> <<"site_list">>]}
   \cup {[name |-> "ts.divergence_index", kinds |-> <<"sample_set_index", "sample_set_index">>],
         [name |-> "ts.f4_index", kinds |-> <<"sample_set_index", "sample_set_index">>]}
